@@ -704,9 +704,8 @@ def run_api(ctx, r, specs, label, ncalls=4, requests=None, templates="standard")
     ops = []
     for s, reqs, _ in plans:
         cs = s.get("stream") == "cs"
-        # the ads client.py.j2 renders only the `field_headers` tuple and never calls create_metadata: the model of
-        # what it emits is the implicit branch, whatever the routing annotation says (the oracle still demands AIP-4222)
-        if s["params"] is not None and templates != "ads":
+        # (the ads client.py.j2 calls the same create_metadata macro since e7125a7: one model for both template sets)
+        if s["params"] is not None:
             ops.append({"op": "c06.explicit", "params": [{"field": p["field"], "segs": p["segs"]} for p in s["params"]],
                         "client_streaming": cs, "requests": [model_request(q) for q in reqs]})
         else:
@@ -719,9 +718,7 @@ def run_api(ctx, r, specs, label, ncalls=4, requests=None, templates="standard")
         m = svc.methods[s["name"]]
         ctx.count("method_kind", s["kind"] + (":" + s["stream"] if s.get("stream") else "") + ("+binding" if s.get("binding") else ""))
         ctx.traces += 1
-        if s["params"] is not None and templates == "ads":
-            pass
-        elif s["params"] is not None:
+        if s["params"] is not None:
             if bool(m.explicit_routing) is not True:
                 ctx.disagree("T2:c06.explicit_routing", f"{s['name']}: routing annotation not seen by the schema", {"spec": s})
             if s["params"]:
@@ -818,7 +815,7 @@ def run_api(ctx, r, specs, label, ncalls=4, requests=None, templates="standard")
             ctx.count("clients", templates + ":" + "+".join(sorted(seen)))
             ctx.count("call_mode", mode)
             ctx.count("header_x_rest", f"{'present' if present else 'absent'}/{'rest' if rest_ok else 'no-rest'}")
-            known = "ads-templates-ignore-explicit-routing" if (templates == "ads" and s["params"] is not None) else None
+            known = None        # no listed finding shape (the ads templates honour google.api.routing since e7125a7)
             for kind, h in seen.items():
                 # ---- oracle
                 if s.get("stream") == "cs":
@@ -994,7 +991,7 @@ def run(ctx):
         specs[1] = gen_spec(r, 1, "implicit")
         run_api(ctx, r, specs, f"api{a}", ncalls=ctx.n(4, 5))
         ctx.count("stream", "generated-api")
-    # ---- the alternative ("ads") templates carry their own copy of create_metadata: sync gRPC only
+    # ---- the alternative ("ads") templates call their own (identical) copy of create_metadata: sync gRPC only
     for a in range(ctx.n(1, 40)):
         specs = [gen_spec(r, i) for i in range(8)]
         run_api(ctx, r, specs, f"ads{a}", ncalls=ctx.n(3, 4), templates="ads")
@@ -1038,5 +1035,5 @@ CLAIM = dict(
     text="Lean 4 proof on an executable model of create_metadata that explicit routing is the AIP-4222 fold (for every key the value sent is the capture of the LAST parameter with that key that matches with a non-empty capture; no header iff no parameter contributes; a parameter without template passes the field through and equals `{field=**}`), that the regex RoutingParameter builds captures exactly what a regex-free segment scanner of the template language captures (all templates with one named segment and `**` last, all newline-free values; also for templates without named segment), that implicit routing lists exactly the variables of the primary http path, reads every reserved-word segment of a (dotted) field path from the suffixed attribute — so the attribute path is always a valid Python expression — and sends the raw name, that an empty annotation and client-streaming explicit methods send nothing, that the schema-side RoutingRule.resolve agrees with the emitted chain when no value is empty, and that the encoded header only contains URL-safe characters. Tie: T1 bridge of the field_headers regex and the reserved-name tables; T2 AST equality between the model regex and CPython's parse of the real to_regex().pattern, captures via Python re vs the Lean engine, field_headers/disambiguated, RoutingRule.resolve, urlencode; T3 the header seen by loopback gRPC (sync, asyncio) and HTTP servers for programs of calls (request objects, dicts rebuilt from bytes, literal dicts, request=None; unary, server- and client-streaming; additional bindings; integer path variables) through the emitted clients of the standard and of the ads templates vs the model; a model-independent AIP-4222 reference resolver as oracle.",
     technique="Lean 4 theorems (induction over the parameter list; regex-engine proofs by induction over template segments) + translator bridge + differential T2/T3 against emitted clients on loopback servers",
     design="7.6",
-    note="Values with newlines, templates with `**` before the last segment, literals with regex metacharacters, enum/bool routing fields are outside the generated space (stated as assumptions; probes recorded in the evidence). Four defects found by this check were repaired in /repo (findings/C06.json, fixed) and are regression inputs. Open finding: the alternative (ads) templates ignore google.api.routing (their client never calls create_metadata).",
+    note="Values with newlines, templates with `**` before the last segment, literals with regex metacharacters, enum/bool routing fields are outside the generated space (stated as assumptions; probes recorded in the evidence). Four defects found by this check were repaired in /repo (findings/C06.json, fixed) and are regression inputs. A fifth (the ads templates ignored google.api.routing) was repaired as well; the ads T3 stream is a regression stream.",
 )
